@@ -23,6 +23,12 @@ def step (st : Option Inc) (ws : List String) : Option (Option Inc × String) :=
                        payload := (← Driver.Frame.unhex payload) }
     let (s, o) := Amqp.Reasm.step st f
     pure (s, showOut o)
+  | ["frame", id, tag, fmt, settled, more, aborted, payload, resume] => do
+    let f : Frame := { id := (← optNat id), tag := (← optHex tag), fmt := (← optNat fmt),
+                       settled := (← optBool settled), more := (← bool01 more), aborted := (← bool01 aborted),
+                       payload := (← Driver.Frame.unhex payload) }
+    let (s, o) := Amqp.Reasm.stepR st f (← bool01 resume)
+    pure (s, showOut o)
   | _ => none
 
 end Driver.Reasm
